@@ -260,4 +260,12 @@ def _is_f3c(v, rec):
     return v.get('clause') == 'option.setup_works' and v.get('cls') in ('Plant', 'CHPAsset') and v.get('mode') == 'periodic'
 
 
-CLASSIFIERS = {'c13_plant_periodicity': _is_f3c}
+def _is_f46(v, rec):
+    # own coarser frequency in calendar days on a zone-aware grid: the coarse steps are pd.date_range(window start, freq='d') in the grid's zone; if the
+    # window starts at a wall-clock time that is ambiguous (02:00-03:00 on the autumn switch day) or missing (spring) on a LATER day of the window,
+    # pandas raises Ambiguous/NonExistentTimeError inside the set-up
+    return (v.get('clause') == 'option.setup_works' and v.get('mode') == 'coarse' and str(v.get('freq', '')).endswith('d')
+            and ('AmbiguousTimeError' in str(v.get('error', '')) or 'NonExistentTimeError' in str(v.get('error', ''))))
+
+
+CLASSIFIERS = {'c13_plant_periodicity': _is_f3c, 'c13_coarse_daily_step_on_ambiguous_wall_clock_time': _is_f46}
